@@ -119,6 +119,8 @@ func c03Exec(env *c03Env, op map[string]interface{}) (line string) {
 			}
 		}
 		return "kids " + sb.String()
+	case "pemclass":
+		return c03PemClass(str("der"), str("block"))
 	case "entrypath":
 		return "entrypath " + hex.EncodeToString([]byte(fileSystemBackend{fspath: unhex("dir")}.getEntryPath(unhex("kid"), privateKeyEntry)))
 	case "listnames":
@@ -364,7 +366,7 @@ func TestVerifC03(t *testing.T) {
 			var op map[string]interface{}
 			if json.Unmarshal(sc.Bytes(), &op) == nil {
 				switch op["op"] {
-				case "kidmap", "kids", "entrypath", "save", "listnames":
+				case "kidmap", "kids", "entrypath", "save", "listnames", "pemclass":
 					emit(op)
 				}
 			}
@@ -507,5 +509,12 @@ func TestVerifC03(t *testing.T) {
 			files = []interface{}{}
 		}
 		emit(map[string]interface{}{"op": "listnames", "files": files})
+	}
+	// the PEM codec: every DER kind in every block type
+	for _, der := range c03PemDerKinds {
+		for _, block := range c03PemBlocks {
+			pi, qi := c03PemInputs(der, block)
+			emit(map[string]interface{}{"op": "pemclass", "der": der, "block": block, "privParsed": pi, "pubParsed": qi})
+		}
 	}
 }
